@@ -448,6 +448,11 @@ def _run_reject(case):
     flags["center_none_component"] = rejects(Sphere, n=1.5, r=1.0, center=(None, 0, 0))
     flags["ellipsoid_negative_semi_axis"] = rejects(Ellipsoid, n=1.5, r=(-1, 1, 1), center=(0, 0, 0))           # (F97)
     # a centre is an ordered triple of numbers: a set has no order, nan is not a position; a radius is a number
+    # three numbers in the wrong SHAPE are not a centre either: column vector, row matrix, nested lists, a mapping
+    flags["centre_wrong_shape_rejected"] = bool(rejects(Sphere, n=1.5, r=1.0, center=np.array([[1.0], [2.0], [3.0]])) and rejects(Sphere, n=1.5, r=1.0, center=np.array([[1.0, 2.0, 3.0]]))
+                                                and rejects(Sphere, n=1.5, r=1.0, center=[[1.0], [2.0], [3.0]]) and rejects(Ellipsoid, n=1.5, r=(1, 1, 1), center=np.ones((3, 1)))
+                                                and rejects(LayeredSphere, n=[1.5, 1.4], t=[0.5, 0.2], center=np.ones((1, 3))) and rejects(Sphere, n=(1.5, 1.4), r=(0.5, 0.7), center=np.ones((3, 1, 1))))
+    flags["centre_mapping_rejected"] = rejects(Sphere, n=1.5, r=1.0, center={0: 1.0, 1: 2.0, 2: 3.0})
     flags["centre_set_rejected"] = rejects(Sphere, n=1.5, r=1.0, center={1.0, 2.0, 3.0})
     flags["centre_nan_rejected"] = rejects(Sphere, n=1.5, r=1.0, center=(float("nan"), 0.0, 0.0)) and rejects(Sphere, n=1.5, r=1.0, center=np.array([0.0, np.nan, 0.0]))
     flags["radius_nan_rejected"] = rejects(Sphere, n=1.5, r=float("nan"), center=(0, 0, 0)) and rejects(Sphere, n=(1.5, 1.4), r=(0.5, float("nan")), center=(0, 0, 0))
